@@ -84,6 +84,23 @@ func ParseInScope(data []byte, outer map[string]string) (*Node, error) {
 	return parse(data, &scope{m: outer})
 }
 
+// isNCName: the lexer accepts names such as "p:0"; the local part and the
+// prefix must each start with a letter or underscore.
+func isNCName(s string) bool {
+	if s == "" {
+		return false
+	}
+	for i, r := range s {
+		switch {
+		case r == '_' || r >= 0x80 || (r >= 'a' && r <= 'z') || (r >= 'A' && r <= 'Z'):
+		case i > 0 && (r == '-' || r == '.' || (r >= '0' && r <= '9')):
+		default:
+			return false
+		}
+	}
+	return true
+}
+
 func parse(data []byte, outer *scope) (*Node, error) {
 	d := xml.NewDecoder(bytes.NewReader(data))
 	d.Strict = true
@@ -107,6 +124,14 @@ func parse(data []byte, outer *scope) (*Node, error) {
 		case xml.StartElement:
 			if len(stack) == 0 && root != nil {
 				return nil, fmt.Errorf("vx: second root element <%s>", t.Name.Local)
+			}
+			if !isNCName(t.Name.Local) || (t.Name.Space != "" && !isNCName(t.Name.Space)) {
+				return nil, fmt.Errorf("vx: %q:%q is not a valid element name", t.Name.Space, t.Name.Local)
+			}
+			for _, a := range t.Attr {
+				if !isNCName(a.Name.Local) || (a.Name.Space != "" && !isNCName(a.Name.Space)) {
+					return nil, fmt.Errorf("vx: %q:%q is not a valid attribute name", a.Name.Space, a.Name.Local)
+				}
 			}
 			n := &Node{Kind: Element}
 			cur := &scope{m: map[string]string{}, parent: sc}
